@@ -6,7 +6,10 @@
 From Coq Require Import Permutation.
 From FrameModel Require Import Num.QcTac Geometry.Rect Cases.CmpC01
   Die.Boundaries Die.BoundariesFacts Die.Cells Die.Cover Die.CoverFacts Die.GridFacts Die.HananFacts
-  Die.DieModel Die.DieFacts Die.DieExample.
+  Die.DieModel Die.DieFacts Die.DieExample Die.DieInput Die.DieInputFacts.
+From Coq Require Import Ascii String.
+Open Scope string_scope.
+Open Scope list_scope.
 Open Scope Qc_scope.
 
 (* (i) the checker applied to the implementation's ground list is sound: the accepted
@@ -160,3 +163,121 @@ Print Assumptions C01_example_pinwheel.
 Theorem C01_example_invalid : leaves_die (qc 1 1000000) ex_out /\ malformed ex_bad.
 Proof. exact ex_invalid. Qed.
 Print Assumptions C01_example_invalid.
+
+(* ---- (vii) the input forms of Die(stream, netlist): dict, list, str ('<W>x<H>' / YAML text /
+   file name, tried in this order), open stream (Die/DieInput.v).  The file system [file_of] and
+   the YAML loader [yaml_load] are arbitrary. ---- *)
+
+(* '<a>x<b>' is a die iff there is exactly one 'x', float() accepts both parts and both values
+   are positive and finite; float() is the modelled CPython grammar (py_float) *)
+Theorem C01_string_die_intro : forall a b w h, no_x a -> no_x b ->
+  py_float a = Some (PFin w) -> py_float b = Some (PFin h) -> 0 < w -> 0 < h ->
+  string_die_chars (a ++ char_x :: b) = SDShape w h.
+Proof. exact string_die_intro. Qed.
+Print Assumptions C01_string_die_intro.
+
+Theorem C01_string_die_inv : forall l w h, string_die_chars l = SDShape w h ->
+  exists a b, l = (a ++ char_x :: b)%list /\ no_x a /\ no_x b /\
+    py_float a = Some (PFin w) /\ py_float b = Some (PFin h) /\ 0 < w /\ 0 < h.
+Proof. exact string_die_inv. Qed.
+Print Assumptions C01_string_die_inv.
+
+(* the string form means the same as the dict {width: w, height: h}: same result for every
+   netlist (fx) and every cover *)
+Theorem C01_string_same_as_dict : forall file_of yaml_load eps aeps deps tin s w h fx gs,
+  string_die s = SDShape w h ->
+  die_in_with_cover file_of yaml_load eps aeps deps tin (InStr s) fx gs =
+  die_in_with_cover file_of yaml_load eps aeps deps tin (InMap (shape_tree w h)) fx gs /\
+  die_in_with_cover file_of yaml_load eps aeps deps tin (InStr s) fx gs =
+  IRes (die_with_cover eps aeps deps tin (mkDesc (shape_tree w h) fx) gs) /\
+  parse (mkDesc (shape_tree w h) fx) = Some (w, h, []).
+Proof. exact string_same_as_dict. Qed.
+Print Assumptions C01_string_same_as_dict.
+
+(* hence Die('<W>x<H>', netlist): the fixed rectangles of the netlist are reported and carved out
+   of the ground; everything reported tiles the die *)
+Theorem C01_string_die_tiles : forall file_of yaml_load eps aeps deps tin s w h fx gs,
+  0 <= eps -> 0 <= aeps -> 0 < deps -> 0 <= tin ->
+  string_die s = SDShape w h ->
+  let xs := die_xs eps w h fx in
+  let ys := die_ys eps w h fx in
+  separated eps w h fx -> valid w h fx -> accepted_cover eps w h fx gs ->
+  die_in_with_cover file_of yaml_load eps aeps deps tin (InStr s) fx gs =
+    IRes (Accept (map (ground_of xs ys) gs) [] [] fx) /\
+  tiles (fx ++ map (ground_of xs ys) gs) (die_rect w h).
+Proof. exact string_die_tiles. Qed.
+Print Assumptions C01_string_die_tiles.
+
+(* every form that resolves to a description is constructed exactly like the dict: a valid
+   description is accepted and tiles, with the fixed rectangles among the regions ... *)
+Theorem C01_input_accepts_valid : forall file_of yaml_load eps aeps deps tin i t fx w h regions gs,
+  0 <= eps -> 0 <= aeps -> 0 < deps -> 0 <= tin ->
+  resolve file_of yaml_load i = RTree t -> parse (mkDesc t fx) = Some (w, h, regions) ->
+  let ins := inputs regions fx in
+  let xs := die_xs eps w h ins in
+  let ys := die_ys eps w h ins in
+  separated eps w h ins -> valid w h ins -> accepted_cover eps w h ins gs ->
+  die_in_with_cover file_of yaml_load eps aeps deps tin i fx gs =
+    IRes (Accept (map (ground_of xs ys) gs) (specialised regions) (blockages regions) fx) /\
+  tiles (ins ++ map (ground_of xs ys) gs) (die_rect w h) /\
+  (forall r, In r fx -> In r (ins ++ map (ground_of xs ys) gs)).
+Proof. exact input_accepts_valid. Qed.
+Print Assumptions C01_input_accepts_valid.
+
+(* ... an invalid one is rejected, and what is not a description is never accepted *)
+Theorem C01_input_rejects_invalid : forall file_of yaml_load eps aeps deps tin i t fx gs,
+  resolve file_of yaml_load i = RTree t ->
+  malformed (mkDesc t fx) \/ leaves_die tin (mkDesc t fx) \/ overlapping aeps (mkDesc t fx) ->
+  exists why, die_in_with_cover file_of yaml_load eps aeps deps tin i fx gs = IRes (Reject why).
+Proof. exact input_rejects_invalid. Qed.
+Print Assumptions C01_input_rejects_invalid.
+
+Theorem C01_unresolved_not_accepted : forall file_of yaml_load eps aeps deps tin i fx gs,
+  (forall t, resolve file_of yaml_load i <> RTree t) ->
+  forall g s b f, die_in_with_cover file_of yaml_load eps aeps deps tin i fx gs <> IRes (Accept g s b f).
+Proof. exact unresolved_not_accepted. Qed.
+Print Assumptions C01_unresolved_not_accepted.
+
+(* several constructions in one process: the result of each is that of a fresh construction *)
+Theorem C01_construction_independent : forall file_of yaml_load before c after,
+  nth_error (construct_all file_of yaml_load (before ++ c :: after)) (List.length before) =
+  Some (construct file_of yaml_load c).
+Proof. exact construction_independent. Qed.
+Print Assumptions C01_construction_independent.
+
+(* the three readings of a str, in the order the code tries them *)
+Theorem C01_read_order : forall file_of yaml_load s,
+  match string_die s with
+  | SDShape w h => resolve file_of yaml_load (InStr s) = RTree (shape_tree w h)
+  | SDNotPositive => resolve file_of yaml_load (InStr s) = RAssert
+  | SDInfinite => resolve file_of yaml_load (InStr s) = RInfinite
+  | SDNone =>
+      if is_text (chars s) then resolve file_of yaml_load (InStr s) = from_text yaml_load s
+      else resolve file_of yaml_load (InStr s) =
+           match file_of s with Some txt => from_text yaml_load txt | None => RRaise end
+  end.
+Proof. exact read_order. Qed.
+Print Assumptions C01_read_order.
+
+(* what the correspondence evaluates: accepted by the comparator = the input resolves to a
+   description on which the dict comparator holds *)
+Theorem C01_agree_accept_in_resolved : forall files loads eps aeps deps tin i fx G S B Fx,
+  agree_accept_in files loads eps aeps deps tin i fx G S B Fx = true ->
+  exists t, resolve (files_of files) (loader_of loads) i = RTree t /\
+            agree_accept eps aeps deps tin (mkDesc t fx) G S B Fx = true.
+Proof. exact agree_accept_in_resolved. Qed.
+Print Assumptions C01_agree_accept_in_resolved.
+
+(* spellings: the grammar is not vacuous *)
+Theorem C01_string_die_examples :
+  string_die "10x9" = SDShape (qc 10 1) (qc 9 1) /\
+  string_die " 1.25e1 x 1_0 " = SDShape (qc 25 2) (qc 10 1) /\
+  string_die "+5.x.5" = SDShape (qc 5 1) (qc 1 2) /\
+  string_die "125E-1x1e+1" = SDShape (qc 25 2) (qc 10 1) /\
+  string_die "0x10" = SDNotPositive /\ string_die "nanx5" = SDNotPositive /\ string_die "10x-9" = SDNotPositive /\
+  string_die "infx5" = SDInfinite /\
+  string_die "10x9x8" = SDNone /\ string_die "10X9" = SDNone /\ string_die "1__0x9" = SDNone /\
+  string_die "1e_1x2" = SDNone /\ string_die ".x2" = SDNone /\ string_die "+ 1x2" = SDNone /\
+  string_die "width: 10" = SDNone.
+Proof. exact string_die_examples. Qed.
+Print Assumptions C01_string_die_examples.
